@@ -185,11 +185,17 @@ VH_MAIN
         for (j = 0; j < N; ++j) for (k = colptr[j]; k < colptr[j + 1]; ++k) Fd[rowind[k]][j] = aval[k];
         for (i = 0; i < N; ++i) { b[i] = vh_double(); b0[i] = b[i]; }
         vh_pivot_reset(); vh_cut_calls = 0; c_con = 0; c_rfs = 0;
+#ifdef VH_PIVPREF2
+        vh_pivot_phase = 1;   /* the new values lead to a different pivot sequence: L's supernode partition may change */
+#endif
         opt.refact = YES; opt.usepr = VH_USEPR ? YES : NO; opt.fact = DOFACT;
         pdgssvx(NPROCS, &opt, &A, vh_permc_final, perm_r, &equed, R, C, &L, &U, &B, &X, &rpg, &rcond, ferr, berr, &mu, &info);
         vh_assert(info == 0 && vh_cut_calls == 1, "re-factorization succeeds and solves once");
         for (i = 0; i < N; ++i) vh_assert(vh_permc_final[i] == perm_c1[i], "re-factorization keeps the column ordering");
+#ifndef VH_PIVPREF2
         for (i = 0; i < N; ++i) vh_assert(perm_r[i] == perm_r1[i], "same pivots chosen again: row permutation returned unchanged");
+#endif
+        for (i = 0; i < N; ++i) perm_r1[i] = perm_r[i];
         check_solve(perm_r, vh_permc_final, x, b0);
         /* ---- solve with the supplied factors only ---- */
         {
